@@ -12,12 +12,19 @@ parse methods with every member of a finite, stated space of well- and ill-forme
             objects) and the string tokens
   env       parse_env with every token in every option's environment variable
   defcfg    parse_args([]) with a faulty default config file
+  history   two (thorough: up to three) calls on ONE parser, drawn from a per-shape alphabet of valid calls, requested
+            exits and cleanly reported faults (alone and combined with --print_config) through every channel; every
+            call is judged by the single-call oracle (exit 0 only if that call itself asks for help / print_config)
+
+Auxiliary parsers (sub-parsers of shape D, the ActionParser's parser of shape F) are built with default settings
+when the main parser has exit_on_error=False, i.e. they rely on inheriting the parent's error mode (thorough: both
+this and the explicit construction).
 
 Oracle (independent of the implementation): the call must terminate within the horizon and end in one of
   Namespace | ArgumentError (exit_on_error False) | SystemExit(2) with usage + "error:" on stderr (exit_on_error
   True) | SystemExit(0) only when the command line asked for help / print_config.
 
-A case is a JSON value {"shape", "eoe", "chan", <input>, "focus"}; "focus" names the varied item (token class,
+A case is a JSON value {"shape", "eoe", "chan", <input>, "focus"[, "subs"]}; "focus" names the varied item (token class,
 argument kind, name form) and determines the signature together with the observed deviation.  See notes/C03.md.
 """
 from __future__ import annotations
@@ -36,8 +43,10 @@ META = {
     "level_text": "Every member of a finite, stated product of malformed inputs (option-name grammar x fault-token "
     "alphabet x six parser shapes x five parse methods x both exit_on_error modes, single faults completely and "
     "pairs against a context set) is executed on the unmodified parse methods; the only accepted outcomes are a "
-    "Namespace, ArgumentError, exit 2 with usage and error line, or a requested exit 0. Fault enumeration is the "
-    "right level because the property quantifies over malformed inputs and failure paths, not over histories.",
+    "Namespace, ArgumentError, exit 2 with usage and error line, or a requested exit 0. The same oracle judges "
+    "every call of all two-call histories over a per-shape call alphabet on one parser (a failed or exiting call "
+    "must not change how the next call on the same parser reports). Fault enumeration is the right level because "
+    "the property quantifies over malformed inputs and failure paths.",
     "level_note": "Trusted: the classification of one call in mc.util.outcome, the fixture classes, the option tables "
     "of the six shapes. Bounded by the token alphabet and by sequences of at most two (quick) / three (thorough) "
     "varying argv items; termination is decided by a per-call horizon (1 s of CPU time, about 300x the normal call, "
@@ -476,7 +485,8 @@ def judge(case, o):
 
 
 def _detail(o):
-    return f"{o['kind']} {o.get('type', '')} {o.get('code', '')} {(o.get('message') or o.get('stderr') or '')[:300]!r}"
+    text = o.get("message") or o.get("stderr") or ("stdout: " + o["stdout"] if o.get("stdout") else "")
+    return f"{o['kind']} {o.get('type', '')} {o.get('code', '')} {text[:300]!r}"
 
 
 def _obs(o):
@@ -521,7 +531,7 @@ def run_history(case):
         found = judge(view(i), o)
         if not found:
             continue
-        fresh = found if i == 0 else judge(view(i), execute(case, only=i))
+        fresh = found if i == 0 else judge(view(i), execute(case, only=i)[0])
         for d in found:
             where = f"[call {i + 1} of {[c['label'] for c in calls]}, exit_on_error={case['eoe']}] "
             if d in fresh:
@@ -593,7 +603,7 @@ def argv_single_cases(shape, tier):
         for tok, text in values_for("1", "a" if quick and form not in ("unknown", "bare-double-dash") else None):
             for sp in ("=", " "):
                 items = [f"{name}={text}"] if sp == "=" else [name, text]
-                focus = {"tok": tok, "kind": "unknown-option", "form": form}
+                focus = {"tok": tok, "kind": "unknown-option", "form": form, "spelling": "k=v" if sp == "=" else "k v"}
                 yield {"shape": shape, "chan": "argv", "argv": place(shape, [], items), "focus": focus}, False, False
     # a bare value as positional
     for tok, text in values_for("7"):
@@ -905,7 +915,7 @@ def hist_alphabet(shape):
 
 def history_cases(shape, tier):
     """Ordered sequences of calls on one parser.  quick: (any call, second-call subset); thorough: every ordered pair
-    and every triple (any, any, second-call subset)."""
+    and every triple (any, any, second-call subset; exit_on_error=False only)."""
     alpha = hist_alphabet(shape)
     second = [c for c in alpha if c["label"] in HIST_SECOND_QUICK]
     seqs = [[c1, c2] for c1 in alpha for c2 in (second if tier == "quick" else alpha)]
@@ -959,7 +969,11 @@ def space(tier):
     both = (False, True)
     for shape in SHAPES:
         for case, ntp, rep in argv_single_cases(shape, tier):
-            admit(case, ntp, rep, both)
+            f = case["focus"]
+            reduced = quick and f.get("spelling") == "k v" and f["form"] not in ("plain", "unknown", "bare-double-dash")
+            # quick: the two-item spelling of a malformed option name runs with exit_on_error=False only (the
+            # one-item spelling and the plain names run in both modes)
+            admit(case, ntp, rep, (False,) if reduced else both)
         for case, ntp, rep in argv_pair_cases(shape, tier):
             admit(case, ntp, rep, (False,) if quick else both)
         for chan in ("string", "path"):
@@ -974,7 +988,7 @@ def space(tier):
         for case, ntp, rep in defcfg_cases(shape, tier):
             admit(case, ntp, rep, both)
         for case, ntp, rep in history_cases(shape, tier):
-            admit(case, ntp, rep, both)
+            admit(case, ntp, rep, both if len(case["calls"]) == 2 else (False,))
     return out
 
 
@@ -1030,7 +1044,7 @@ def explore(ctx):
                 if last["fam"] == "valid":
                     hist_valid[0] += 1
                     hist_valid[1] += parts[-1] == "ok"
-                obs = "ok" if all(part == "ok" for part in parts) else "history-not-all-ok"
+                obs = "timeout" if "timeout" in parts else "ok" if all(part == "ok" for part in parts) else "history-not-all-ok"
             else:
                 obs_count[obs] = obs_count.get(obs, 0) + 1
             key = f"{case['chan']}:{'exit' if case['eoe'] else 'raise'}"
@@ -1070,10 +1084,17 @@ def explore(ctx):
                  f"new ones are): {suppressed[:40]}")
 
     total = len(uniq)
+
+    def per_chan_total(chan):
+        return sum(v for k, v in per_chan.items() if k.startswith(chan + ":"))
+
     for c in (normal[0], normal[len(normal) // 2], normal[-1]):
         ctx.sample(c)
-    for chan in ("string", "path", "object", "env", "defcfg"):
+    for chan in ("string", "path", "object", "env", "defcfg", "history"):
         ctx.sample(next(c for c in normal if c["chan"] == chan))
+    ctx.count("history:parse-calls", hist_calls[0])
+    ctx.count("history:ending-in-a-well-formed-call", hist_valid[0])
+    ctx.count("history:well-formed-last-call-accepted", hist_valid[1])
     for k, v in sorted(obs_count.items()):
         ctx.count("outcome:" + k, v)
     for k, v in sorted(per_chan.items()):
@@ -1083,11 +1104,12 @@ def explore(ctx):
     ctx.cover(
         evaluations=total,
         states=len(inputs),
-        transitions=total,
+        transitions=total - per_chan_total("history") + hist_calls[0],
         traces_validated_against_impl=total,
         distinct_nontrivial=nontrivial,
-        rule="a case is one parse call (shape, channel, input, exit_on_error) on a fresh parser; cases are distinct by "
-        "construction (deduplicated on their canonical JSON); non-trivial = the call did not simply return a "
+        rule="a case is one parse call (shape, channel, input, exit_on_error) on a fresh parser, or a history of two "
+        "(thorough: up to three) parse calls on one fresh parser; cases are distinct by "
+        "construction (deduplicated on their canonical JSON); non-trivial = the call(s) did not simply return a "
         "configuration (a failure was reported, the process exit was requested, an exception escaped or the horizon "
         "was hit); states = distinct (shape, channel, input) triples, transitions = parse calls executed",
         exhaustive=True,
@@ -1102,6 +1124,11 @@ def explore(ctx):
             "horizon_s": HORIZON,
             "cpu_horizon_s": CPU_HORIZON,
             "hang_prone_cases": len(slow),
+            "auxiliary_parsers": "built with default settings (inheriting) when exit_on_error=False" if ctx.quick
+            else "both constructions (explicit same value / default settings) when exit_on_error=False",
+            "histories": "ordered pairs (any call of the per-shape call alphabet, second-call subset)" if ctx.quick
+            else "all ordered pairs of the per-shape call alphabet + triples (any, any, second-call subset; exit_on_error=False)",
+            "history_call_alphabet": {sh: len(hist_alphabet(sh)) for sh in SHAPES},
         },
         distinct_observations=len(obs_count),
         horizon_hits=timeouts,
@@ -1123,6 +1150,12 @@ def explore(ctx):
         ctx.require(obs_count.get("ArgumentError", 0) > 5000, "more than 5000 inputs rejected with ArgumentError")
         ctx.require(obs_count.get("exit2", 0) > 5000, "more than 5000 inputs rejected with exit status 2")
         ctx.require(obs_count.get("exit0", 0) >= 10, "help / print_config exits observed")
+        ctx.require(hist_valid[0] > 1000 and hist_valid[1] >= 0.9 * hist_valid[0],
+                    f"histories ending in a well-formed call have that call accepted ({hist_valid[1]} of {hist_valid[0]}: "
+                    "the call alphabet addresses the options correctly)")
+        for k in ("history-call1:exit0", "history-call1:ArgumentError", "history-call1:exit2", "history-call2:exit0",
+                  "history-call2:ArgumentError", "history-call2:exit2", "history-call2:ok"):
+            ctx.require(obs_count.get(k, 0) >= 50, f"histories: at least 50 observations of {k}")
     ctx.require(all(per_shape.get(s, 0) > 1000 for s in SHAPES), "every parser shape explored")
-    ctx.require(all(any(k.startswith(ch + ":") for k in per_chan) for ch in ("argv", "string", "path", "object", "env", "defcfg")),
+    ctx.require(all(any(k.startswith(ch + ":") for k in per_chan) for ch in ("argv", "string", "path", "object", "env", "defcfg", "history")),
                 "every channel explored")
